@@ -91,7 +91,9 @@ const baseNano = int64(1_700_000_000) * 1_000_000_000
 func msToTime(ms int64) time.Time { return time.Unix(0, baseNano+ms*1_000_000) }
 func nanoToMs(n uint64) int64     { return (int64(n) - baseNano) / 1_000_000 }
 
-func caseRng(seed int64, c int) *mrand.Rand { return mrand.New(mrand.NewSource(seed*1000003 + int64(c))) }
+func caseRng(seed int64, c int) *mrand.Rand {
+	return mrand.New(mrand.NewSource(seed*1000003 + int64(c)))
+}
 
 // ---- the datastore stack ---------------------------------------------------------------------------
 
@@ -696,6 +698,13 @@ func (w *World) judge(f Final, quiesced bool) {
 		w.or.fail("block-not-a-released-batch-in-order", fmt.Sprintf("non-empty committed block number %d %v is not the next released batch (released: %v)", j+1, chain[j], f.Released), -1)
 	}
 	cause := func(r release) string {
+		// the releasing step itself decides: a process that died in the window never reached the timestamp test
+		if r.lostWin {
+			return sigF13
+		}
+		if r.regress {
+			return sigF12
+		}
 		reg, win := false, false
 		for _, x := range w.released {
 			if eqInts(x.txs, r.txs) {
